@@ -248,6 +248,12 @@ func mkIfaceMap[K any](m ifaceMap[K], kc keyConv[K], keys func(limit int) ([]int
 				m.Sort(kc.less)
 			}
 		},
+		sortHook: func(hook func()) {
+			m.Sort(func(a, b K) bool {
+				hook()
+				return kc.less(a, b)
+			})
+		},
 		sortFail: func(after int) {
 			n := 0
 			m.Sort(func(a, b K) bool {
@@ -371,6 +377,12 @@ func mkNumMap[K any, V any](m numMap[K, V], kc keyConv[K], vc *vcodec[V], x numE
 				m.Sort(kc.less)
 			}
 		},
+		sortHook: func(hook func()) {
+			m.Sort(func(a, b K) bool {
+				hook()
+				return kc.less(a, b)
+			})
+		},
 		sortFail: func(after int) {
 			n := 0
 			m.Sort(func(a, b K) bool {
@@ -462,6 +474,12 @@ func mkSet[K any](m setAPI[K], kc keyConv[K], keyRet func(x interface{}) ret, ke
 			} else {
 				m.Sort(kc.less)
 			}
+		},
+		sortHook: func(hook func()) {
+			m.Sort(func(a, b K) bool {
+				hook()
+				return kc.less(a, b)
+			})
 		},
 		sortFail: func(after int) {
 			n := 0
